@@ -27,7 +27,8 @@ META = {
              "Model/CommitFinalizer.v): tsi.CommitProofFinalizer.Finalize never panics on a non-empty key list for any input and any Go map order "
              "(the nil-map assignment is unreachable), and composed with HandleProposedHeader's reconstruction + ValidateFinalizedProof it hands "
              "the receiver exactly the signer set of every block whenever the precommit proofs are well formed (C13_cpf_then_receive, also "
-             "instantiated with the real sign bytes through C15's injectivity theorem); the receiver-side reconstruction is re-implemented in "
+             "instantiated with the real sign bytes through C15's injectivity theorem; C13_cpf_model_satisfies_monitor: the model's observation is accepted "
+             "by the monitor Monitors/C13Cpfm.cpf_mon on EVERY input); the receiver-side reconstruction is re-implemented in "
              "harness/c13cpf (inline code of HandleProposedHeader; the mirror harness exercises the original). Partial: the flags "
              "of full Merge are decided by the Coq monitor on the implementation and by correspondence, not by a general theorem; "
              "Full for the BLS aggregation tree (Model/BlsTree.v, all key-set sizes 1..65535): tree layout of New, invariant over all "
